@@ -41,12 +41,14 @@ pub fn make_history(r: &mut Sm, idx: usize) -> History {
             _ => vec![Op::Solve(5), Op::Setup(0), Op::Solve(5), Op::Construct, Op::Construct, Op::Solve(10), Op::Setup(0), Op::Construct, Op::Solve(10)],
         }
     } else {
-        match r.below(5) {
+        match r.below(7) {
             0 => vec![Op::Setup(0), Op::Solve(n(r))],
             1 => vec![Op::Setup(0), Op::Solve(n(r)), Op::Solve(n(r))],
             2 => vec![Op::Setup(0), Op::Solve(n(r)), Op::Setup(1), Op::Solve(n(r))],
             3 => vec![Op::Solve(3), Op::Setup(0), Op::Solve(n(r))],
-            _ => vec![Op::Setup(0), Op::Solve(n(r)), Op::Setup(0), Op::Solve(n(r)), Op::Solve(n(r))],
+            4 => vec![Op::Setup(0), Op::Solve(n(r)), Op::Setup(0), Op::Solve(n(r)), Op::Solve(n(r))],
+            5 => vec![Op::Setup(0), Op::Solve(n(r)), Op::ScaleParams(0.5), Op::SetupMixed(0, 1), Op::Solve(n(r)), Op::Solve(n(r))],
+            _ => vec![Op::Setup(0), Op::Solve(n(r)), Op::Solve(n(r)), Op::Solve(n(r)), Op::Setup(1), Op::Solve(n(r))],
         }
     };
     History { problems: vec![p1, p2], params, prm_samples: 5 + r.below(80) as u64, ops, uniform_fail_at: None, starts_override: None }
